@@ -188,3 +188,47 @@ PROPS["C19"] = {
     "level_note": "Trusted: Lean kernel; harness; Go's panic/defer/recover semantics (the harness module declares go 1.18 like /repo so that panic(nil) recovers as nil).",
     "rule": "stream panic: 4 kinds x 3 protocols x {no panic, nil, sentinel, 6 other values} x 3 panic points x random 0..2 interceptors before/after WithRecover (exhaustive over the first four dimensions); sequence probes (clean, panic, clean, panic) per kind.",
 }
+
+PROPS["C12"] = {
+    "title": "Requests are dispatched by method, HTTP version and Content-Type as advertised",
+    "lean_module": "ConnectProofs.C12",
+    "theorems": [
+        "ConnectModel.C12.guard_505",
+        "ConnectModel.C12.guard_405",
+        "ConnectModel.C12.guard_415",
+        "ConnectModel.C12.serve_iff",
+        "ConnectModel.C12.advertised_eq_accepted",
+        "ConnectModel.C12.advertised_characterised",
+        "ConnectModel.C12.codec_lookup_defined",
+        "ConnectModel.C12.procedure_agrees",
+    ],
+    "streams": ["disp"],
+    "design_ref": "DESIGN.md §5 C12",
+    "technique": "Lean 4 theorems over a model of ServeHTTP's guards, the per-protocol content-type sets, Accept-Post and extractProtoPath (constants regenerated from the Go source) + differential correspondence through real handlers and clients",
+    "level_text": "Machine-checked proof of the dispatch decision table (505 before 405 before 415; a protocol handler is reached iff none applies), of advertised = accepted for every Content-Type string and every codec set, of the shape of that set (three prefixes x codec names + bare gRPC types iff proto is registered), that the codec lookup for an accepted type never misses, and that the client-side procedure derived from any base URL + '/svc/method' equals the handler's. The model is tied to the code by sweeping methods x HTTP versions x Content-Types (every advertised one, 11 near-misses each, junk) x codec sets x 4 kinds through real handlers with counters in user code and an interceptor, and URL shapes through extractProtoPath and a real client's interceptor.",
+    "level_note": "Trusted: Lean kernel; table extractor (content-type prefixes); harness. 'Exactly once' is observed (counters), the model claims it only up to the selection of the protocol handler; timeouts/negotiation rejections after selection are C07/C08/C10.",
+    "rule": "stream disp: 4 kinds x 4 codec sets x {every advertised Content-Type and 11 mutations of each, 11 fixed junk types, 6 random} x random method (15% non-POST) and HTTP version; all 12 methods x 4 versions on a valid type; 219 URL shapes through extractProtoPath, 212 through a real client's Spec.",
+}
+
+PROPS["C08"] = {
+    "title": "Compression is negotiated so both sides can decode, and is lossless",
+    "lean_module": "ConnectProofs.C08",
+    "theorems": [
+        "ConnectModel.C08.names_advertised",
+        "ConnectModel.C08.names_order",
+        "ConnectModel.C08.negotiate_unknown",
+        "ConnectModel.C08.negotiate_sound",
+        "ConnectModel.C08.negotiate_prefers_first",
+        "ConnectModel.C08.negotiate_compressed_request",
+        "ConnectModel.C08.encoding_header_names_choice",
+        "ConnectModel.C01.compress_flag_iff",
+        "ConnectModel.C01.unmarshal_marshal",
+    ],
+    "streams": ["neg"],
+    "design_ref": "DESIGN.md §5 C08",
+    "technique": "Lean 4 theorems over models of newReadOnlyCompressionPools and negotiateCompression (+ the envelope writer/reader round-trip of C01 for losslessness and the threshold) + differential correspondence through real handlers with toy algorithms and real clients",
+    "level_text": "Machine-checked proof for all registration orders, sent and accept strings: the advertised list is the registered names, each once, most recently registered first; the response algorithm is identity or registered, equals the request's algorithm when the request was compressed, otherwise is the first accept entry the handler supports; an unsupported request algorithm is the unimplemented error listing the advertised names; streaming Connect and gRPC name the choice in their encoding header iff it is not identity; the compressed flag is set iff a pool is configured and the payload is at least compress-min-bytes; every compressed message decompresses to the original (C01). Partial: pool isolation under corrupt input and 'user code does not run' are checked by the harness (probe with corrupt then concurrent valid calls; run counters), not proved.",
+    "level_note": "Trusted: Lean kernel; harness; compressor laws. The reading of 'most-preferred' follows gRPC's asymmetric-compression rule cited by the code (DESIGN §5 C08).",
+    "not_proved": ["isolation of shared (de)compressor pools after a corrupt message (sampled)"],
+    "rule": "stream neg: 7 registration orders (default gzip + toy names, repeats) x all ordered accept lists of 1..3 names from a 4-name universe (both separators) + junk x 3 protocols x {unary, stream} with a decoy header of the other layer; 8 sent values x 3 protocols x 2 kinds; client threshold: 3 protocols x 2 kinds x 6 minima x sizes around them x send-compression on/off; pool-isolation probe (gzip, rle).",
+}
